@@ -429,7 +429,7 @@ var rR9k = RuleRef{Name: "R9k", Doc: "KEYS: every key placed in the reply passed
 		c.Undecided("R9k", "anchors keys executor / util.PattenMatch / resp.MakeBulkData")
 		return
 	}
-	of := c.orderFlow(fn, nil, true)
+	of := c.orderFlow(fn, nil, true, "T|call:PattenMatch")
 	n := 0
 	for _, b := range fn.Blocks {
 		for _, in := range b.Instrs {
@@ -593,7 +593,7 @@ var rR23 = RuleRef{Name: "R23", Doc: "single path into the state machine in clus
 		c.Undecided("R23", "the cluster connection handler (the one that sends RaftProposals)")
 		return
 	}
-	of := c.orderFlow(hc, nil, true)
+	of := c.orderFlow(hc, nil, true, "T|cmp:*")
 	nd := 0
 	for _, b := range hc.Blocks {
 		for _, in := range b.Instrs {
